@@ -9,7 +9,7 @@ cp /repo/go.sum harness/go.sum
 for d in harness/cmd/*/; do
   n=$(basename "$d")
   echo "building $n"
-  (cd harness && go1.26.8 build -tags verif -o ../.build/$n ./cmd/$n)
+  (cd harness && go1.26.8 build -tags verif -o ../.build/$n ./cmd/$n) || echo "WARNING: family $n does not build (its checks will report BROKEN)"
 done
-python3 tools/parse_specs.py
+python3 tools/parse_specs.py || echo "WARNING: some specifications do not parse"
 echo setup ok
